@@ -1,5 +1,8 @@
 use super::*;
+#[cfg(not(feature = "verif-hooks"))]
 use alloc::alloc::{alloc, dealloc, realloc};
+#[cfg(feature = "verif-hooks")]
+use crate::verif_hooks::{alloc, dealloc, realloc};
 use core::{alloc::Layout, hint, ptr, ptr::NonNull};
 
 #[cfg(not(loom))]
@@ -475,4 +478,14 @@ mod internal {
     // - https://github.com/rust-lang/libs-team/issues/510
     #[cold]
     pub(super) fn cold_path() {}
+
+    #[cfg(feature = "verif-hooks")]
+    pub(super) fn verif_max_len() -> usize {
+        MAX_LEN
+    }
+}
+
+#[cfg(feature = "verif-hooks")]
+pub(crate) fn verif_consts() -> [usize; 3] {
+    [internal::verif_max_len(), size_of::<Header>(), HeapBuffer::header_offset()]
 }
